@@ -14,15 +14,15 @@ from . import common
 PROP = "C11"
 LEVEL = "model_checking"
 RULE = (
-    "X-SEQ on the live compiler, two explorations over an alphabet of 14 compile requests chosen so that every piece of process-wide state named in the "
+    "X-SEQ on the live compiler, two explorations over an alphabet of 16 compile requests chosen so that every piece of process-wide state named in the "
     "property's anchors is written by one request and read by another (verbose / compact output of one source; a directive-carrying "
     "source; two sources with the same constexpr call text but different function bodies and one with an identical helper script; a "
     "source that prints a positive prefab hash and large integers, i.e. the lazily built hash set; device alias / reference-id / Stack "
     "sources that touch the module-level device singletons; sources that assign / read the named registers sp, ra, r7; a source that aborts with an error in the middle of code generation; a "
     "multi-module source).  (1) Every history of length <= 2 (quick) / <= 3 (thorough; at most 2 steps when a constexpr request is "
     "involved) runs in its own fork of a pristine parent process that has imported the package but never compiled.  (2) Long "
-    "histories: the de Bruijn sequence B(14, 3) (quick, 2744 steps) / B(14, 4) (thorough, 38416 steps), in which every window of 3 / 4 "
-    "consecutive requests occurs, is run from 16 different start offsets, each in one fork, with the options objects and source "
+    "histories: the de Bruijn sequence B(16, 3) (quick, 4096 steps) / B(16, 4) (thorough, 65536 steps), in which every window of 3 / 4 "
+    "consecutive requests occurs, is run from 8 (quick) / 16 (thorough) different start offsets, each in one fork, with the options objects and source "
     "mappings reused throughout.  After EACH step of every history: "
     "result == the fresh-process oracle of that request (computed in 3 separate processes with different PYTHONHASHSEED, which must "
     "agree; whole dictionaries, object addresses normalised), the caller's options object and source mapping are unchanged (deep "
@@ -37,6 +37,7 @@ ASSUME = [
 
 SRC_H = 'x = d0.Setting\ndb.Setting = HASH("Bank") + x\ndb.Mode = DisplayMode.Power\nGrowLights["North"].On = x > LogicType.Pressure\n'
 CX = "@constexpr\ndef cx(a):\n    return a * {m} + 1\n"
+CXL = "@constexpr\ndef table():\n    return [10, 20, 30, 40, 50, 60, 70]\n"
 ALIAS = 'gs = GasSensor(d1, alias="SENS")\nst = Stack(d4)\nst[2] = gs.Pressure\nrid = d0.ReferenceId\nbt = Stack(ref_id=rid)\nbt[1] = stack[3] + st[2]\n'
 ALIAS2 = 'gs = GasSensor(d2, alias=True)\ndb.Setting = gs.Temperature\nst = Stack(ref_id=255)\nst[0] = db.Setting\nstack[5] = st[4]\n'
 ABORT = "def f(a):\n    db.On = a\n" + "".join(f"v{i} = d{i % 6}.Setting\n" for i in range(20)) + "f(1)\nf(2)\n" + "".join(f"db.Setting = v{i}\n" for i in range(20))
@@ -69,12 +70,15 @@ def requests():
         "modules": ({"": LIBMAIN, "m": LIB}, {"inline_functions": False}),
         # the module-level register objects of the dialect (sp, ra, r0..r15) written by one program, read by another
         "sp-write": ("sp = 0\npush(d0.Setting)\npush(d1.Setting)\nra = 5\n", {}),
+        # a constexpr function returning a list: indexed at run time (jump table) by one program, iterated by another
+        "cxlist-index": (CXL + "tb = table()\ndb.Setting = tb[d0.Setting]\n", {}),
+        "cxlist-loop": (CXL + "for v in table():\n    db.On = v\n", {}),
         "sp-read": ("d0.Setting = sp\nd1.Setting = r7\nra = pop()\n", {}),
     }
     return R
 
 
-CXREQ = {"cx-body1", "cx-body2", "cx-same-script"}
+CXREQ = {"cx-body1", "cx-body2", "cx-same-script", "cxlist-index", "cxlist-loop"}
 _ADDR = re.compile(r"0x[0-9a-fA-F]+")
 
 
@@ -102,13 +106,23 @@ def fresh_oracle(name, src, opts):
     full = dict(comp.DEFAULTS)
     full.update(opts)
     outs = []
+    import time as _time
+
     for seed in ("0", "1", "12345"):
         env = dict(os.environ, PYTHONHASHSEED=seed)
-        p = subprocess.run([sys.executable, "-c", ORACLE_SCRIPT, repo, pickle.dumps((src, full)).hex()], capture_output=True, text=True, env=env, timeout=300)
-        line = next((l for l in p.stdout.splitlines() if l.startswith("RESULT")), None)
-        if line is None:
-            return None, f"fresh process produced no result for request {name!r}: {p.stderr[-300:]}"
-        outs.append(norm(json.loads(line[6:])))
+        res = None
+        for attempt in range(6):
+            p = subprocess.run([sys.executable, "-c", ORACLE_SCRIPT, repo, pickle.dumps((src, full)).hex()], capture_output=True, text=True, env=env, timeout=300)
+            line = next((l for l in p.stdout.splitlines() if l.startswith("RESULT")), None)
+            if line is None:
+                return None, f"fresh process produced no result for request {name!r}: {p.stderr[-300:]}"
+            res = json.loads(line[6:])
+            if not comp.is_timeout(res):
+                break
+            _time.sleep(1 + attempt)  # the constexpr helper's 1 s limit was exceeded (machine load): not a result, try again
+        if comp.is_timeout(res):
+            return "INCONCLUSIVE", None
+        outs.append(norm(res))
     if not (outs[0] == outs[1] == outs[2]):
         return outs[0], f"fresh processes with different PYTHONHASHSEED disagree on request {name!r}"
     return outs[0], None
@@ -152,6 +166,8 @@ def run_history_in_child(hist, R, oracle):
                 return {"symptom": "options-object-modified", "step": i, "reuse": reuse, "description": f"before {before_o} after {vars(o)}"}
             if src_arg != before_s:
                 return {"symptom": "source-mapping-modified", "step": i, "reuse": reuse, "description": "the caller's source mapping was changed"}
+            if oracle[name] == "INCONCLUSIVE":
+                continue
             if norm(res) != oracle[name]:
                 return {"symptom": "result-depends-on-history", "step": i, "reuse": reuse, "description": f"request {name!r} after {list(hist[:i])}: in-process result differs from the fresh-process result", "got": str(norm(res))[:1200], "fresh": str(oracle[name])[:1200]}
     return {"steps": steps, "states": states}
@@ -211,6 +227,8 @@ def run_long_history_in_child(names, seq, rot, n, R, oracle):
             return {"symptom": "options-object-modified", "step": i, "window": recent, "description": f"before {before_o} after {vars(o)}"}
         if src_arg != src:
             return {"symptom": "source-mapping-modified", "step": i, "window": recent, "description": "the caller's source mapping was changed"}
+        if oracle[name] == "INCONCLUSIVE":
+            continue
         if norm(res) != oracle[name]:
             return {"symptom": "result-depends-on-history", "step": i, "window": recent, "description": f"request {name!r} at step {i} of the long history (preceded by {recent[:-1]}): in-process result differs from the fresh-process result", "got": str(norm(res))[:1200], "fresh": str(oracle[name])[:1200]}
     return {"steps": steps, "states": sorted(states)}
@@ -279,6 +297,8 @@ def build_cases(tier):
         for h in itertools.product(names, repeat=ln):
             if sum(x in CXREQ for x in h) and ln > cxmax:
                 continue
+            if tier == "quick" and ln == 2 and any(x in CXREQ for x in h) and not all(x in CXREQ or x in ("verbose", "compact", "directive", "abort") for x in h):
+                continue  # quick: a constexpr request is paired with the other constexpr requests and four state-writing ones
             hist.append(h)
     cx = [h for h in hist if any(x in CXREQ for x in h)]
     plain = [h for h in hist if not any(x in CXREQ for x in h)]
@@ -291,8 +311,9 @@ def build_cases(tier):
     # 16 different offsets so that every window is met with 16 different pasts
     n = 3 if tier == "quick" else 4
     total = len(names) ** n
-    for k in range(16):
-        cases.append({"family": "LONG", "histories": [], "rot": (k * total) // 16, "n": n, "key": common.hkey("LONG", tier, k)})
+    nrot = 8 if tier == "quick" else 16
+    for k in range(nrot):
+        cases.append({"family": "LONG", "histories": [], "rot": (k * total) // nrot, "n": n, "key": common.hkey("LONG", tier, k)})
     cases.sort(key=lambda c: 0 if c["family"] == "LONG" else 1)
     return cases
 
@@ -345,6 +366,7 @@ def run(tier, propose=False):
             "histories_inconclusive_constexpr_timeout": sum((o.get("stats") or {}).get("inconclusive", 0) for o in outs),
             "requests": {n: (s if isinstance(s, str) else s[""])[:80] for n, (s, o) in _R.items()},
             "fresh_process_oracle_runs": 3 * len(_R),
+            "requests_without_oracle_constexpr_timeout": sorted(n for n, v in _ORACLE.items() if v == "INCONCLUSIVE"),
         }
 
     return common.enum_check(PROP, tier, cases, run_case, LEVEL, RULE, ASSUME, propose_only=propose, mc_keys=mc, det_n=0, do_warmup=False, exhaustive=True)
